@@ -884,41 +884,104 @@ def expected_after_close(op):
     return {'recv': 'state', 'send': 'state', 'execTimed': 'state', 'close': 'ok', 'logout': 'ok', 'sendUnseq': 'state'}[op]
 
 
-def oracle(ctx, sc, r):
-    """the property statement evaluated on what the implementation did (no model involved)"""
+def oracle_findings(sc, r):
+    """the property statement evaluated on what the implementation did (no model involved).
+    Returns [(description, replay dict)]"""
+    out = []
     base = {'cfg': sc['cfg'], 'labels': sc['labels']}
     if r.get('process_timeout'):
-        ctx.violation('the scenario process itself did not finish within its hard timeout (hang)', dict(base, kind='process-timeout'))
-        return
+        return [('the scenario process itself did not finish within its hard timeout (hang)', dict(base, kind='process-timeout'))]
     if r.get('fatal'):
-        ctx.violation('scenario could not be run: ' + r['fatal'], dict(base, kind='fatal'))
-        return
+        return [('scenario could not be run: ' + r['fatal'], dict(base, kind='fatal'))]
     for h in r.get('hung', []):
-        ctx.count('hang:' + h['kind'])
-        ctx.violation(f"T{h['caller']} {h['op']}() never returned nor raised (blocked at {h['position']}, job {h['job']}, "
-                      f"loop thread alive={h['loop_thread_alive']}): {h['kind']}",
-                      dict(base, kind=h['kind'], caller=h['caller'], op=h['op']))
+        out.append((f"T{h['caller']} {h['op']}() never returned nor raised (blocked at {h['position']}, job {h['job']}, "
+                    f"loop thread alive={h['loop_thread_alive']}): {h['kind']}",
+                    dict(base, kind=h['kind'], caller=h['caller'], op=h['op'])))
     # after close/logout returned: thread exited, session closed
     closes = []
     for i, hs in enumerate(r.get('hist', [])):
-        for (op, out, alive, closed, start, endno) in hs:
-            if op in ('close', 'logout') and out == 'ok':
+        for (op, out_, alive, closed, start, endno) in hs:
+            if op in ('close', 'logout') and out_ == 'ok':
                 closes.append(endno)
                 if alive:
-                    ctx.violation(f'T{i} {op}() returned while the executor thread was still alive',
-                                  dict(base, kind='returned-thread-alive', caller=i, op=op))
+                    out.append((f'T{i} {op}() returned while the executor thread was still alive',
+                                dict(base, kind='returned-thread-alive', caller=i, op=op)))
                 if not closed:
-                    ctx.violation(f'T{i} {op}() returned but is_closed() is False', dict(base, kind='returned-not-closed', caller=i, op=op))
-            if op in ('close', 'logout') and out not in ('ok',):
-                ctx.count('close-raised:' + out)
+                    out.append((f'T{i} {op}() returned but is_closed() is False', dict(base, kind='returned-not-closed', caller=i, op=op)))
     first_close = min(closes) if closes else None
     if first_close is not None:
         for i, hs in enumerate(r['hist']):
-            for (op, out, alive, closed, start, endno) in hs:
-                if start > first_close and out != expected_after_close(op):
+            for (op, out_, alive, closed, start, endno) in hs:
+                if start > first_close and out_ != expected_after_close(op):
                     kind = 'unseq-after-close' if op == 'sendUnseq' else 'no-state-error-after-close'
-                    ctx.violation(f'T{i} {op}() started after close()/logout() had returned and ended with {out!r} instead of '
-                                  f'{expected_after_close(op)!r}', dict(base, kind=kind, caller=i, op=op, outcome=out))
+                    out.append((f'T{i} {op}() started after close()/logout() had returned and ended with {out_!r} instead of '
+                                f'{expected_after_close(op)!r}', dict(base, kind=kind, caller=i, op=op, outcome=out_)))
+    return out
+
+
+def oracle(ctx, sc, r):
+    found = oracle_findings(sc, r)
+    for what, rep in found:
+        ctx.count('oracle:' + rep['kind'])
+        ctx.violation(what, rep)
+    return found
+
+
+def drop_caller(cfg, labels, i):
+    progs = [p for k, p in enumerate(cfg['progs']) if k != i]
+    out = []
+    for l in labels:
+        if l[0] in 'cj' and l != 'close':
+            k = int(l[1:])
+            if k == i:
+                continue
+            out.append(l[0] + str(k - 1 if k > i else k))
+        else:
+            out.append(l)
+    return {'progs': progs, 'peer': list(cfg['peer'])}, out
+
+
+def shrink(sc, kind, budget=40):
+    """greedy reduction of a failing (configuration, interleaving): drop threads, trailing calls, peer events, trailing
+    labels while the oracle still reports a failure of the same kind.  Every candidate is executed on the implementation."""
+    pool = Pool(1)
+    cur = {'cfg': sc['cfg'], 'labels': list(sc['labels'])}
+
+    def fails(cfg, labels):
+        r = pool.map([{'id': 0, 'cfg': cfg, 'labels': labels, 'expect': None, 'grace': 1.0}])[0]
+        return any(rep['kind'] == kind for _, rep in oracle_findings({'cfg': cfg, 'labels': labels}, r))
+    used = 0
+    progress = True
+    while progress and used < budget:
+        progress = False
+        cands = []
+        cfg, labels = cur['cfg'], cur['labels']
+        if len(cfg['progs']) > 1:
+            for i in range(len(cfg['progs'])):
+                cands.append(drop_caller(cfg, labels, i))
+        for i, p in enumerate(cfg['progs']):
+            if len(p) > 1:
+                cands.append(({'progs': [q[:-1] if k == i else q for k, q in enumerate(cfg['progs'])], 'peer': list(cfg['peer'])}, labels))
+        if cfg['peer']:
+            lb = list(labels)
+            if 'peer' in lb:
+                idx = len(lb) - 1 - lb[::-1].index('peer')
+                del lb[idx]
+            cands.append(({'progs': cfg['progs'], 'peer': cfg['peer'][:-1]}, lb))
+        if len(labels) > 1:
+            cands.append((cfg, labels[:-1]))
+        for c2, l2 in cands:
+            if used >= budget:
+                break
+            used += 1
+            try:
+                if fails(c2, l2):
+                    cur = {'cfg': c2, 'labels': l2}
+                    progress = True
+                    break
+            except Exception:  # noqa
+                pass
+    return cur
 
 
 def correspondence(ctx, sc, r, final):
@@ -1067,6 +1130,16 @@ def run(ctx):
             correspondence(ctx, s, r, s['final'])
             if s.get('witness') and not r.get('hung') and s['final']['hung']:
                 ctx.disagree(f"witness {s.get('name')}: the implementation did not hang where the Witness theorem says the model does", {'cfg': s['cfg'], 'labels': s['labels']})
+    # ---- minimise the first failing input that is not a recorded finding
+    if ctx.violations and ctx.violations[0][1].get('cfg'):
+        what, rep = ctx.violations[0]
+        try:
+            small = shrink(rep, rep['kind'])
+            if (len(small['labels']), len(str(small['cfg']))) < (len(rep['labels']), len(str(rep['cfg']))):
+                ctx.violations[0] = (what + '  [minimised from ' + cfg_sx(rep['cfg']) + ']',
+                                     dict(rep, cfg=small['cfg'], labels=small['labels'], caller=None))
+        except Exception as e:  # noqa
+            ctx.notes.append('C20: shrinking failed: ' + repr(e)[:200])
     # ---- soup.connect
     model_conn = {}
     if have_model:
